@@ -2,6 +2,8 @@ package rhphost
 
 import (
 	"bytes"
+	"encoding/json"
+	"os"
 	"fmt"
 	"math"
 	"math/rand/v2"
@@ -19,6 +21,8 @@ import (
 )
 
 func init() { vcli.Register("C09", "fault_enumeration", runC09) }
+
+var debugAttempts = os.Getenv("VERIF_DEBUG") != ""
 
 // c09Case is one RPC attempt against a contract of N sectors. It is the unit
 // of enumeration, of witnesses and of replay.
@@ -285,6 +289,11 @@ func (c *c09) attempt(cs c09Case, setup bool) error {
 		if ev.Persisting() && ev.Err == "" {
 			persisted++
 		}
+	}
+
+	if debugAttempts {
+		b, _ := json.Marshal(cs)
+		fmt.Printf("attempt %s -> %s err=%v persisted=%d\n", b, outcome, out.err, persisted)
 	}
 
 	// (1) always: host roots hash to the committed root, count matches size
@@ -1095,6 +1104,9 @@ func c09RunJob(r *mon.Run, ji int, job c09Job) error {
 	defer func() {
 		r.Count("handler_panics_recovered", c.lab.HostPanics())
 		r.Count("job_ms_total", int(time.Since(t0).Milliseconds()))
+		if os.Getenv("VERIF_TIMING") != "" {
+			fmt.Printf("timing job %-28s cases=%d seqs=%d wall=%v\n", job.name, len(job.cases), len(job.seqs), time.Since(t0).Round(time.Millisecond))
+		}
 	}()
 	for _, cs := range job.cases {
 		if err := c.attempt(cs, false); err != nil {
